@@ -49,8 +49,26 @@
   * `unbridged_never_raises_cc`, `late_ack_is_noise`, `late_ack_asShipped_counterexample`
                          — the completion code of a foreign / late Send Message response is never raised for
                            the request in hand (as shipped it is)
+  Every native transport (the step models of C04: `Loops.rmcpRequest`, `Loops.i2cRequest`, `Loops.i2cProbe`,
+  Model/RmcpLoop.lean / IpmbDevLoop.lean; `I2cCfg.refuseRouted` = the source with fixes/C09-2.diff):
+  * `routed_request_rmcp_is_nest`
+                         — every datagram `Rmcp._send_and_receive` transmits for a routed target, at ANY depth,
+                           retransmissions included, is the nest (`NestFor`: hop i = routing entry i with request
+                           tracking and the transaction's sequence number, innermost = the original request from the
+                           last hop's source to its responder)
+  * `routed_request_i2c_nest_or_nothing`, `routed_probe_i2c_nest_or_nothing`
+                         — ipmb-dev / Aardvark (`_send_and_receive`, `is_ipmc_accessible`): a routing of more than one
+                           hop is REFUSED — NotSupportedError, NOTHING written, nothing read, sequence number untouched;
+                           a one-hop routing that names the interface and the target sends the plain request (the nest
+                           of depth 0): no routed request ever reaches the local bus un-bridged
+  * `i2c_routing_ignored_asShipped_counterexample`
+                         — as shipped `Target.routing` was ignored: Get Device ID for the MMC 72h behind the carrier
+                           IPMC 82h goes as `72 18 76 20 04 01 db` to whoever owns 72h on the LOCAL bus (the bridge
+                           refuses it: not a Send Message) and that controller's answer is returned
 -/
 import PyIpmi.Lemmas.IpmbBridge
+import PyIpmi.Lemmas.LoopsBridge
+import PyIpmi.Lemmas.LoopsSound
 namespace PyIpmi.Props.C09
 open PyIpmi PyIpmi.Ipmb PyIpmi.Bridge PyIpmi.Spec.Wire PyIpmi.Spec.Bridges
 
@@ -316,6 +334,138 @@ theorem late_ack_asShipped_counterexample :
     classifyRx .asShipped none { hpmReq with netfn := 6, cmd := 1, seq := 2 } {}
       (wrapLayer { hpmLayer with seq := 1 } 0x83 []) = .err (.ccError 0x83) := by decide
 
+/-! ### every native transport: the nest, or nothing at all
+
+The step models of the three transports (property C04's, tied to the source statement by statement) all
+take a `Loops.Req` with the target's routing. -/
+
+/-- `f` is, for `routing`, the request the property demands: the chain of `routing.length - 1`
+specification bridges accepts every layer (both checksums, netFn App, Send Message), bridge i sees routing
+entry i (its own address, the hop's source, the hop's channel, request tracking on, sequence number
+`seq`), and what reaches the target parses to the original request `h` — sent from the last hop's source
+to its responder — with the payload unchanged. -/
+def NestFor (routing : List Loops.Hop) (h : Hdr) (payload : List Nat) (seq : Nat) (f : List Nat) : Prop :=
+  ∃ rs last inner, routing = rs ++ [last] ∧
+    peelN rs.length f = some (rs.map (LoopsBridge.hopOf seq), inner) ∧
+    parseReq inner = some ({ h with rqSa := last.rqSa, rsSa := last.rsSa }, payload)
+
+/-- header fields of a request in range (8-bit addresses and command, 6-bit netFn, 2-bit LUN) -/
+def ReqInRange (slave : Nat) (req : Loops.Req) : Prop :=
+  slave < 256 ∧ req.rsSa < 256 ∧ req.netfn < 64 ∧ req.lun < 4 ∧ req.cmd < 256
+
+instance (slave : Nat) (req : Loops.Req) : Decidable (ReqInRange slave req) := by unfold ReqInRange; infer_instance
+
+theorem wireHdr_inRange (slave : Nat) (req : Loops.Req) (seq : Nat) (hq : ReqInRange slave req) (hs : seq < 64) :
+    (LoopsBridge.wireHdr (Loops.mkHdr slave req seq)).InRange := by
+  obtain ⟨h1, h2, h3, h4, h5⟩ := hq
+  exact ⟨h2, h4, h3, h1, Nat.zero_lt_succ 3, hs, h5⟩
+
+/-- LAN: every datagram `Rmcp._send_and_receive` transmits for a routed target — any depth, any state of
+the interface, any events, every retransmission — is the nest for that routing, built around the
+request header of THIS transaction (its new sequence number in every layer). -/
+theorem routed_request_rmcp_is_nest (cfg : Loops.Cfg) (st : Loops.IfState) (req : Loops.Req)
+    (evs : List Loops.RxEvent) (rs : List Loops.Hop) (last : Loops.Hop) (hrt : req.routing = rs ++ [last])
+    (hq : ReqInRange cfg.slaveAddr req) (hrs : ∀ r ∈ rs, LoopsBridge.HopInRange r)
+    (hl : last.rqSa < 256 ∧ last.rsSa < 256) :
+    ∀ f ∈ (Loops.rmcpRequest cfg st req evs).tx,
+      NestFor req.routing (LoopsBridge.wireHdr (Loops.mkHdr cfg.slaveAddr req ((st.nextSeq + 1) % 64))) req.payload
+        ((st.nextSeq + 1) % 64) f := by
+  intro f hf
+  have hs : Loops.incSeq st.nextSeq = (st.nextSeq + 1) % 64 := rfl
+  have h64 : (st.nextSeq + 1) % 64 < 64 := by omega
+  simp only [Loops.rmcpRequest, hs] at hf
+  rw [(List.mem_replicate.mp hf).2]
+  have hne : (rs ++ [last]).isEmpty = false := by simp
+  obtain ⟨inner, hp, hi⟩ := LoopsBridge.encodeBridged_peel rs last
+    (Loops.mkHdr cfg.slaveAddr req ((st.nextSeq + 1) % 64)) req.payload _ (wireHdr_inRange _ _ _ hq h64) h64 hrs hl
+  refine ⟨rs, last, inner, hrt, ?_, hi⟩
+  simp only [Loops.txData, hrt, hne, Bool.false_eq_true, if_false]
+  exact hp
+
+/-- the plain request on the local bus is the nest of depth 0 for a one-hop routing that names the
+interface's own address and the target's -/
+theorem plain_request_is_nest (slave : Nat) (req : Loops.Req) (seq : Nat) (last : Loops.Hop)
+    (hq : ReqInRange slave req) (hs : seq < 64) (h1 : last.rqSa = slave) (h2 : last.rsSa = req.rsSa) :
+    NestFor [last] (LoopsBridge.wireHdr (Loops.mkHdr slave req seq)) req.payload seq
+      (Loops.encodeIpmbMsg (Loops.mkHdr slave req seq) req.payload) := by
+  refine ⟨[], last, _, rfl, rfl, ?_⟩
+  have hr := wireHdr_inRange slave req seq hq hs
+  rw [LoopsBridge.encodeIpmbMsg_frameOf _ _ hr, parseReq_frameOf _ _ hr]
+  simp [LoopsBridge.wireHdr, Loops.mkHdr, h1, h2]
+
+/-- ipmb-dev / Aardvark, repaired source: these transports do not bridge.  A request for a target whose
+routing has more than one hop is refused — NotSupportedError, nothing written, nothing read, the
+sequence number not used up; with a one-hop routing (the target sits on the local bus: the hop names the
+interface and the target) every frame written, retransmissions included, is the plain request = the nest
+of depth 0.  Either way nothing that is not the nest leaves the transport. -/
+theorem routed_request_i2c_nest_or_nothing (cfg : Loops.I2cCfg) (hc : cfg.refuseRouted = true) (nextSeq : Nat)
+    (req : Loops.Req) (evs : List Loops.I2cEvent) (hq : ReqInRange cfg.slaveAddr req) :
+    (1 < req.routing.length →
+      Loops.i2cRequest cfg nextSeq req evs = { nextSeq := nextSeq, out := .notSupported, tx := [], rest := evs }) ∧
+    (∀ last, req.routing = [last] → last.rqSa = cfg.slaveAddr → last.rsSa = req.rsSa →
+      ∀ f ∈ (Loops.i2cRequest cfg nextSeq req evs).tx,
+        NestFor req.routing (LoopsBridge.wireHdr (Loops.mkHdr cfg.slaveAddr req ((nextSeq + 1) % 64))) req.payload
+          ((nextSeq + 1) % 64) f) := by
+  refine ⟨fun h => Loops.i2cRequest_refused cfg nextSeq req evs ((Loops.i2cRefuses_iff cfg _).2 ⟨hc, h⟩), ?_⟩
+  intro last hrt h1 h2 f hf
+  have hnr : Loops.i2cRefuses cfg req.routing = false := by simp [Loops.i2cRefuses, hrt]
+  have hs : Loops.i2cIncSeq nextSeq = (nextSeq + 1) % 64 := rfl
+  rw [Loops.i2cRequest_not_refused cfg nextSeq req evs hnr] at hf
+  simp only [hs] at hf
+  rw [(List.mem_replicate.mp hf).2, hrt]
+  exact plain_request_is_nest cfg.slaveAddr req _ last hq (by omega) h1 h2
+
+/-- `is_ipmc_accessible` of ipmb-dev / Aardvark likewise (its request is Get Device ID to LUN 0 of the
+target). -/
+theorem routed_probe_i2c_nest_or_nothing (cfg : Loops.I2cCfg) (hc : cfg.refuseRouted = true) (nextSeq rsSa : Nat)
+    (routing : List Loops.Hop) (evs : List Loops.I2cEvent) (h1 : cfg.slaveAddr < 256) (h2 : rsSa < 256) :
+    (1 < routing.length →
+      Loops.i2cProbe cfg true nextSeq rsSa evs routing = { nextSeq := nextSeq, out := .notSupported, tx := [], rest := evs }) ∧
+    (∀ last, routing = [last] → last.rqSa = cfg.slaveAddr → last.rsSa = rsSa →
+      ∀ f ∈ (Loops.i2cProbe cfg true nextSeq rsSa evs routing).tx,
+        NestFor routing (LoopsBridge.wireHdr (Loops.mkHdr cfg.slaveAddr (Loops.probeReq rsSa) ((nextSeq + 1) % 64))) []
+          ((nextSeq + 1) % 64) f) := by
+  refine ⟨fun h => Loops.i2cProbe_refused cfg true nextSeq rsSa evs routing ((Loops.i2cRefuses_iff cfg _).2 ⟨hc, h⟩), ?_⟩
+  intro last hrt e1 e2 f hf
+  have hnr : Loops.i2cRefuses cfg routing = false := by simp [Loops.i2cRefuses, hrt]
+  have hs : Loops.i2cIncSeq nextSeq = (nextSeq + 1) % 64 := rfl
+  have hq : ReqInRange cfg.slaveAddr (Loops.probeReq rsSa) :=
+    ⟨h1, h2, by show 6 < 64; omega, by show 0 < 4; omega, by show 1 < 256; omega⟩
+  have hnest := plain_request_is_nest cfg.slaveAddr (Loops.probeReq rsSa) ((nextSeq + 1) % 64) last hq (by omega) e1 e2
+  have hf' : f = Loops.encodeIpmbMsg (Loops.mkHdr cfg.slaveAddr (Loops.probeReq rsSa) ((nextSeq + 1) % 64)) [] := by
+    simp only [Loops.i2cProbe, hnr, Bool.false_eq_true, if_false, if_true, hs] at hf
+    split at hf <;> simpa using hf
+  rw [hf', hrt]
+  exact hnest
+
+def amcReq : Loops.Req :=
+  { rsSa := 0x72, netfn := 6, lun := 0, cmd := 1, routing := [⟨0x20, 0x82, 7⟩, ⟨0x20, 0x72, 0⟩] }
+/-- the Device ID of whoever owns address 72h on the LOCAL bus (sequence number 1) -/
+def localAnswer : List Nat := [0x20, 0x1c, 0xc4, 0x72, 0x04, 0x01, 0x00, 0x51, 0x38]
+
+/-- As shipped `Target.routing` was ignored by ipmb-dev and Aardvark: the request for the AMC module 72h
+behind the carrier IPMC 82h (bridge channel 7) is written un-bridged to the local bus, where the bridge
+82h would have had to get `82 18 66 20 04 34 47 …`; the chain of one specification bridge refuses the frame
+(it is no Send Message), and the answer of the local owner of 72h is returned as the routed target's. -/
+theorem i2c_routing_ignored_asShipped_counterexample :
+    (Loops.i2cRequest { Loops.I2cCfg.ipmbdev with refuseRouted := false } 0 amcReq [.frame 2 localAnswer]).tx =
+      [[0x72, 0x18, 0x76, 0x20, 0x04, 0x01, 0xdb]] ∧
+    (Loops.i2cRequest { Loops.I2cCfg.aardvark with refuseRouted := false } 0 amcReq [.frame 2 localAnswer]).out =
+      .ok [0x00, 0x51] ∧
+    peelN 1 [0x72, 0x18, 0x76, 0x20, 0x04, 0x01, 0xdb] = none ∧
+    ¬ NestFor amcReq.routing (LoopsBridge.wireHdr (Loops.mkHdr 0x20 amcReq 1)) [] 1
+      [0x72, 0x18, 0x76, 0x20, 0x04, 0x01, 0xdb] := by
+  refine ⟨by decide, by decide, by decide, ?_⟩
+  rintro ⟨rs, last, inner, hrt, hp, _⟩
+  have hlen : rs.length = 1 := by
+    have := congrArg List.length hrt
+    simp [amcReq] at this
+    omega
+  rw [hlen] at hp
+  have hnone : peelN 1 [0x72, 0x18, 0x76, 0x20, 0x04, 0x01, 0xdb] = none := by decide
+  rw [hnone] at hp
+  cases hp
+
 /-! ### non-vacuity -/
 
 def demoHdr : Hdr := { rsSa := 0, rsLun := 0, netfn := 6, rqSa := 0, rqLun := 0, seq := 0x11, cmd := 0xaa }
@@ -356,5 +506,14 @@ example : recvBridged .repaired (some (bridgeHdr 5)) hpmReq {}
 /-- a corrupted completion-code byte of a wrapper (00h -> 83h): dropped, not raised -/
 example : classifyRx .repaired (some (bridgeHdr 5)) hpmReq {}
     ((wrapReply [hpmLayer] (mkReply hpmReq [0, 9])).set 6 0x83) = .noise := by decide
+
+/-- the repaired ipmb-dev on the witness of the counter-example: refused, nothing written; the µTCA example of
+`Target.set_routing` over the LAN: peeled by two bridges -/
+example : (Loops.i2cRequest Loops.I2cCfg.ipmbdev 0 amcReq [.frame 2 localAnswer]).tx = [] ∧
+    (Loops.i2cRequest Loops.I2cCfg.ipmbdev 0 amcReq [.frame 2 localAnswer]).out = .notSupported ∧
+    ReqInRange 0x20 amcReq ∧ Loops.I2cCfg.ipmbdev.refuseRouted = true := by decide
+example : (Loops.rmcpRequest { maxRetries := 0 } ⟨0, [], []⟩
+      { amcReq with routing := [⟨0x81, 0x20, 0⟩, ⟨0x20, 0x82, 7⟩, ⟨0x20, 0x72, 0⟩] } []).tx.map (peelN 2) =
+    [some ([⟨0x20, 0x81, 0, 1, 1⟩, ⟨0x82, 0x20, 7, 1, 1⟩], [0x72, 0x18, 0x76, 0x20, 0x04, 0x01, 0xdb])] := by decide
 
 end PyIpmi.Props.C09
